@@ -9,14 +9,14 @@ def register(reg):
              "(self.on_update is None and ncalls() == 0) or (self.on_update is not None and ncalls() == 1 and notified_final(self))")
     reg.spec("DD(self)", "self.__dict__")
     reg.contract(
-        "werkzeug/datastructures/mixins.py:UpdateDictMixin.__setitem__", prop=P, self_model=UD,
+        "werkzeug/datastructures/mixins.py:UpdateDictMixin.__setitem__", prop=P, self_model=UD, call_inline=True,
         params={"key": "str", "value": "opaque:any"},
         ensures=["key in DD(self) and DD(self)[key] == value",
                  "forall_s(lambda k: implies(k != key, (k in DD(self)) == (k in old(DD(self)))))",
                  "ud_notified(self)"],
     )
     reg.contract(
-        "werkzeug/datastructures/mixins.py:UpdateDictMixin.__delitem__", prop=P, self_model=UD, params={"key": "str"},
+        "werkzeug/datastructures/mixins.py:UpdateDictMixin.__delitem__", prop=P, self_model=UD, call_inline=True, params={"key": "str"},
         ensures=["old(key in DD(self)) and not (key in DD(self))",
                  "forall_s(lambda k: implies(k != key, (k in DD(self)) == (k in old(DD(self)))))",
                  "ud_notified(self)"],
@@ -24,11 +24,11 @@ def register(reg):
         raises_ensures={"KeyError": ["ncalls() == 0"]},
     )
     reg.contract(
-        "werkzeug/datastructures/mixins.py:UpdateDictMixin.clear", prop=P, self_model=UD,
+        "werkzeug/datastructures/mixins.py:UpdateDictMixin.clear", prop=P, self_model=UD, call_inline=True,
         ensures=["forall_s(lambda k: not (k in DD(self)))", "ud_notified(self)"],
     )
     reg.contract(
-        "werkzeug/datastructures/mixins.py:UpdateDictMixin.setdefault", prop=P, self_model=UD,
+        "werkzeug/datastructures/mixins.py:UpdateDictMixin.setdefault", prop=P, self_model=UD, call_inline=True,
         params={"key": "str", "default": "opaque:any"},
         ensures=["key in DD(self)",
                  "implies(old(key in DD(self)), ncalls() == 0 and DD(self)[key] == old(DD(self))[key])",
@@ -36,7 +36,7 @@ def register(reg):
                  "forall_s(lambda k: implies(k != key, (k in DD(self)) == (k in old(DD(self)))))"],
     )
     reg.contract(
-        "werkzeug/datastructures/mixins.py:UpdateDictMixin.pop", prop=P, self_model=UD,
+        "werkzeug/datastructures/mixins.py:UpdateDictMixin.pop", prop=P, self_model=UD, call_inline=True,
         params={"key": "str", "default": "opaque:any"},
         ensures=["not (key in DD(self))",
                  "implies(old(key in DD(self)), ud_notified(self))",
